@@ -74,7 +74,7 @@ def der_ok(x):
         return False
 
 
-ITERATIONS = [0, 1, 5, 65535, -1, 65536, 2 ** 40, "10", "0x1f", " 7 ", "1_0", "٣", "0X10", "abc", "", "-0",
+ITERATIONS = [0, 1, 5, 32767, 32768, 65535, -1, 65536, 2 ** 40, "10", "0x1f", " 7 ", "1_0", "٣", "0X10", "abc", "", "-0",
               "+5", "65536", "0x10000", 5.0, True, None, [1]]
 
 
@@ -167,6 +167,16 @@ def run(ctx):
         sa2 = SignerAuthorization.from_jsonfile(path)
         if (sa2.signer_version.hash, sa2.signer_version.iteration, sa2.signatures) != loaded[:3]:
             res["violations"].append({"key": "C17:roundtrip", "what": "save/load changed the authorization"})
+        # a refused signature leaves the authorization as it was
+        for bad_sig in ("not-a-signature", "30", loaded[2][0][:-2] if loaded[2] else "3006020101", ""):
+            try:
+                sa2.add_signature(bad_sig)
+            except BaseException:
+                pass
+        kept = [x for x in sa2.signatures if not der_ok(x)]
+        if kept:
+            res["violations"].append({"key": "C17:refused-signature-kept", "what": "a malformed signature is "
+                                      "held by the authorization after add_signature: %r" % kept[:2]})
         # the authorize exchange
         thr = rng.choice([None, 1, 2, len(loaded[2]), len(loaded[2]) + 1, 0]) if loaded[2] else rng.choice([None, 1])
         ui = UiSim(thr if thr != 0 else None)
@@ -178,6 +188,11 @@ def run(ctx):
             ok = dongle.authorize_signer(sa) is True
         except HSM2DongleError:
             ok = False
+        except BaseException as e:
+            ok = False
+            res["violations"].append({"key": "C17:authorize-raises:%s" % type(e).__name__,
+                                      "what": "authorize_signer raised %s: %s for a well-formed authorization "
+                                              "(iteration %r)" % (type(e).__name__, e, n), "doc": doc})
         apdus = [e[1] for e in world.trace if e[0] == "A"]
         script = list(world.answers)
         k = ui.threshold
